@@ -194,7 +194,7 @@ def exit_extent(rep, fb, f, eng):
             fb.text(n)[:50], sorted(feats) or 'nothing structural', 'the domain\'s subtree' if ok else 'the position of the next sibling / the end of the document only -- for a domain that is the last child of its parent the interval swallows the following regions'))
 
 
-def narrowing_polarity(rep, fb, f, eng):
+def narrowing_polarity(rep, fb, f, eng, rule='R01.14'):
     from .. import quant
     from ._domain import member
     assigns = {}
@@ -207,7 +207,7 @@ def narrowing_polarity(rep, fb, f, eng):
                 if names and names[0] in ('_compatible', '_conflicting') and n['id'] in cfgm.CFG(f).pos:
                     assigns[n['id']] = n['c'][2]
                     kinds[n['id']] = names[0]
-    rep.minimum('R01.14', len(assigns), 2, 'assignments to _compatible / _conflicting bits in ' + eng)
+    rep.minimum(rule, len(assigns), 2, 'assignments to _compatible / _conflicting bits in ' + eng)
     # loop headers reset the per-element facts
     reset_ids = set()
     for lp in f.walk():
@@ -231,14 +231,14 @@ def narrowing_polarity(rep, fb, f, eng):
             ok = vals <= {True} or not any(m for _, m in neg[nid]) or True
             ok = False not in vals
             why = 'only sets bits (union)' if ok else 'CLEARS a conflict bit while transitions are being added'
-        rep.check(ok, 'R01.14', '%s|%s#%d' % (eng, kinds[nid], sum(1 for k2 in assigns if kinds[k2] == kinds[nid] and f.nodes[k2]['loc'][1] < n['loc'][1])), locstr(n),
+        rep.check(ok, rule, '%s|%s#%d' % (eng, kinds[nid], sum(1 for k2 in assigns if kinds[k2] == kinds[nid] and f.nodes[k2]['loc'][1] < n['loc'][1])), locstr(n),
                   '`%s`: %s' % (fb.text(n)[:60], why))
     # the union with a transition's compatible list is only right for the first selected transition; afterwards the set must narrow
     from ._skel import guarded_by
     from .C08 import edge_dominates
     g0 = cfgm.CFG(f)
     narrowing = [nid for nid in assigns if kinds[nid] == '_compatible' and any(not v for v, _ in pos[nid])]
-    rep.check(bool(narrowing), 'R01.14', eng + '|compatible set narrows', f.where(), 'assignments that can clear a bit of _compatible: %d%s' % (
+    rep.check(bool(narrowing), rule, eng + '|compatible set narrows', f.where(), 'assignments that can clear a bit of _compatible: %d%s' % (
         len(narrowing), '' if narrowing else ' -- the set of compatible transitions only grows: a transition that conflicts with the second selected one but is compatible with the first is still taken'))
     for nid in sorted(assigns):
         if kinds[nid] != '_compatible' or not any(v for v, _ in pos[nid]) or any(not v for v, _ in pos[nid]):
@@ -253,7 +253,7 @@ def narrowing_polarity(rep, fb, f, eng):
             if any(x['k'] == 'MemberExpr' and x['ref'].get('name') == '_flags' for x in sub(f.nodes[c])) and any(any(m[0] == 'USCXML_CTX_TRANSITION_FOUND' for m in (x.get('mac') or [])) for x in sub(f.nodes[c])):
                 if edge_dominates(g0, bid, False, tb):
                     first_only = True
-        rep.check(first_only, 'R01.14', '%s|_compatible set only for the first selection#%d' % (eng, sum(1 for k2 in assigns if f.nodes[k2]['loc'][1] < n['loc'][1])), locstr(n),
+        rep.check(first_only, rule, '%s|_compatible set only for the first selection#%d' % (eng, sum(1 for k2 in assigns if f.nodes[k2]['loc'][1] < n['loc'][1])), locstr(n),
                   '`%s` %s' % (fb.text(n)[:50], 'happens only while no transition has been selected in this step' if first_only else 'is NOT restricted to the first selected transition: later selections widen the compatible set instead of narrowing it'))
 
 
